@@ -48,15 +48,17 @@ def generate(rng, tier):
             kind = rng.choice(["rate", "rate", "rate", "one", "compose", "fields", "write"])
             c = {"kind": kind, "game": game, "map": M.gen_map_spec(rng, game, max_rows=rng.choice([2, 4, 6])), "by": by,
                  "by2": rng.choice(EXACT if exact else ROUNDED), "exact": exact,
-                 "preview": rng.choice([0, 1000, 2500, 12345]), "samples": [M.rand_time(rng) for _ in range(rng.choice([0, 1, 3]))],
+                 "preview": rng.choice([0, 1000, 2500, 12345, 12345, -1]), "samples": [M.rand_time(rng) for _ in range(rng.choice([0, 1, 3]))],
                  "sm": {"offset": rng.choice([0.0, 500.0, -250.0, 1234.5]), "sample_start": rng.choice([0.0, 10000.0, 2500.0]),
                         "sample_length": rng.choice([10000.0, 5000.0])}}
+            if game == "osu" and kind == "one":
+                c["preview"] = rng.choice([-1, 1000])
             cases.append(c)
         for _ in range(max(2, n // 4)):
             exact = rng.random() < 0.7
             cases.append({"kind": "mapset", "game": game, "maps": [M.gen_map_spec(rng, game, max_rows=3) for _ in range(rng.choice([1, 2, 3]))],
                           "by": rng.choice(EXACT if exact else ROUNDED), "exact": exact,
-                          "sm": {"offset": rng.choice([0.0, 500.0, -250.0]), "sample_start": rng.choice([0.0, 10000.0]),
+                          "sm": {"offset": rng.choice([0.0, 500.0, -250.0, 1234.5, None]), "sample_start": rng.choice([0.0, 10000.0, 2500.0]),
                                  "sample_length": rng.choice([10000.0, 5000.0])}})
     return cases
 
@@ -75,7 +77,29 @@ def _prep(case, m):
         from reamber.osu.OsuSample import OsuSample
         m.preview_time = case["preview"]
         m.samples = OsuSampleList([OsuSample(offset=o, sample_file="s.wav", volume=70) for o in case["samples"]])
+        m.title, m.tags, m.audio_lead_in = "t:1", ["a", "b"], 500
     return m
+
+
+OSU_TIME_FIELDS = ("objs", "samples", "preview_time")
+SM_TIME_FIELDS = ("maps", "offset", "sample_start", "sample_length")
+
+
+def _meta_cells(obj, skip, it):
+    """every other dataclass attribute, in declaration order, as opaque cells (they must travel unchanged)"""
+    import dataclasses
+    return [FR.cell_json(getattr(obj, f.name), it) for f in dataclasses.fields(obj) if f.name not in skip]
+
+
+def _osu_file(m, it):
+    return {"lists": _ul(m, it), "samples": M.snapshot_list(m.samples, it), "preview": F.frac_json(Fr(m.preview_time)),
+            "meta": _meta_cells(m, OSU_TIME_FIELDS, it)}
+
+
+def _sm_file(ms, it):
+    return {"charts": [_ul(m, it) for m in ms.maps], "offset": None if ms.offset is None else F.frac_json(Fr(ms.offset)),
+            "start": F.frac_json(Fr(ms.sample_start)), "length": F.frac_json(Fr(ms.sample_length)),
+            "meta": _meta_cells(ms, SM_TIME_FIELDS, it)}
 
 
 def execute(case):
@@ -87,39 +111,46 @@ def execute(case):
         ms = M.build_mapset(case["game"], maps)
         if case["game"] == "sm":
             ms.offset, ms.sample_start, ms.sample_length = case["sm"]["offset"], case["sm"]["sample_start"], case["sm"]["sample_length"]
-        before = [(_ul(m, it), _frames(m, it)) for m in maps]
+            ms.title, ms.selectable = "t", False
+        fb = [_frames(m, it) for m in maps]
+        if case["game"] == "sm":
+            src = _sm_file(ms, it)
+        else:
+            src = [_ul(m, it) for m in maps]
         r = ms.rate(by)
         out["types_ok"] = type(r) is type(ms) and len(r.maps) == len(maps) and all(type(a) is type(b) for a, b in zip(r.maps, maps))
-        for (ub, fb), m, m2 in zip(before, maps, r.maps):
-            out["checks"].append({"t": "rate", "src": ub, "out": _ul(m2, it), "sb": fb, "sa": _frames(m, it)})
+        fa = [_frames(m, it) for m in ms.maps]
         if case["game"] == "sm":
-            out["checks"].append({"t": "fields", "pairs": [[F.frac_json(Fr(ms.offset)), F.frac_json(Fr(r.offset))],
-                                                            [F.frac_json(Fr(ms.sample_start)), F.frac_json(Fr(r.sample_start))],
-                                                            [F.frac_json(Fr(ms.sample_length)), F.frac_json(Fr(r.sample_length))]],
-                                  "names": ["offset", "sample_start", "sample_length"]})
+            out["checks"].append({"t": "sm", "src": src, "out": _sm_file(r, it), "after": _sm_file(ms, it), "fb": fb, "fa": fa})
+        else:
+            out["checks"].append({"t": "set", "src": src, "out": [_ul(m, it) for m in r.maps], "fb": fb, "fa": fa})
         return out
     m = _prep(case, M.build_map(case["map"]))
     ub, fb = _ul(m, it), _frames(m, it)
     kind = case["kind"]
     if kind in ("rate", "fields", "write"):
+        src = _osu_file(m, it) if case["game"] == "osu" else None
         m2 = m.rate(by)
         out["types_ok"] = type(m2) is type(m) and all(type(a) is type(b) for a, b in zip(m2.objs.values(), m.objs.values()))
-        out["checks"].append({"t": "rate", "src": ub, "out": _ul(m2, it), "sb": fb, "sa": _frames(m, it)})
         if case["game"] == "osu":
-            pairs = [[F.frac_json(Fr(m.preview_time)), F.frac_json(Fr(m2.preview_time))]]
-            names = ["preview_time"]
-            for a, b in zip(m.samples.offset.tolist(), m2.samples.offset.tolist()):
-                pairs.append([F.frac_json(Fr(a)), F.frac_json(Fr(b))])
-                names.append("sample")
-            out["checks"].append({"t": "fields", "pairs": pairs, "names": names})
+            out["checks"].append({"t": "osu", "src": src, "out": _osu_file(m2, it), "after": _osu_file(m, it), "fb": fb, "fa": _frames(m, it)})
+            out["checks"].append({"t": "preview", "before": src["preview"], "after": F.frac_json(Fr(m2.preview_time))})
+        else:
+            out["checks"].append({"t": "rate", "src": ub, "out": _ul(m2, it), "sb": fb, "sa": _frames(m, it)})
         if kind == "write" and case["game"] in ("osu", "qua"):
             out["write"] = _write_read(case["game"], m2)
     elif kind == "one":
         m2 = m.rate(1.0)
         out["checks"].append({"t": "same", "a": _ul(m2, it), "b": ub})
+        if case["game"] == "osu":
+            out["checks"].append({"t": "preview", "by": 1.0, "before": F.frac_json(Fr(m.preview_time)), "after": F.frac_json(Fr(m2.preview_time))})
     elif kind == "compose":
         a, b = case["by"], case["by2"]
         out["checks"].append({"t": "same", "a": _ul(m.rate(a).rate(b), it), "b": _ul(m.rate(a * b), it)})
+        if case["game"] == "osu":
+            x, y = m.rate(a).rate(b), m.rate(a * b)
+            out["checks"].append({"t": "same", "a": [M.snapshot_list(x.samples, it)], "b": [M.snapshot_list(y.samples, it)]})
+            out["checks"].append({"t": "preview", "by": a * b, "before": F.frac_json(Fr(m.preview_time)), "after": F.frac_json(Fr(x.preview_time))})
     return out
 
 
@@ -152,6 +183,27 @@ def _uls(snaps):
     return F.lst([M.ulist_coq(s) for s in snaps])
 
 
+def _cells(cs):
+    return F.lst([FR.cell_coq(c) for c in cs])
+
+
+def _qj(p):
+    return F.q(F.frac_from_json(p))
+
+
+def _osu_coq(f):
+    return f"(mkOsuFile {_uls(f['lists'])} {M.ulist_coq(f['samples'])} {_qj(f['preview'])} {_cells(f['meta'])})"
+
+
+def _sm_coq(f):
+    off = "None" if f["offset"] is None else f"(Some {_qj(f['offset'])})"
+    return f"(mkSmFile {F.lst([_uls(c) for c in f['charts']])} {off} {_qj(f['start'])} {_qj(f['length'])} {_cells(f['meta'])})"
+
+
+def _frames2(ff):
+    return F.lst([F.lst([FR.frame_coq(f) for f in fs]) for fs in ff])
+
+
 def emit_all(case, out):
     tol = "0" if case.get("exact", True) else "(1#1000000000)"
     by = F.q(Fr(case["by"]))
@@ -160,9 +212,21 @@ def emit_all(case, out):
         if c["t"] == "rate":
             terms.append(f"CRate {tol} {by} {_uls(c['src'])} {_uls(c['out'])} {F.lst([FR.frame_coq(f) for f in c['sb']])} "
                          f"{F.lst([FR.frame_coq(f) for f in c['sa']])}")
-        elif c["t"] == "fields":
-            ps = F.lst([f"({F.q(F.frac_from_json(a))}, {F.q(F.frac_from_json(b))})" for a, b in c["pairs"]])
-            terms.append(f"CFields {tol} {by} {ps}")
+        elif c["t"] == "osu":
+            a = c["after"]
+            terms.append(f"COsu {tol} {by} {_osu_coq(c['src'])} {_osu_coq(c['out'])} {M.ulist_coq(a['samples'])} {_qj(a['preview'])} "
+                         f"{_cells(a['meta'])} {F.lst([FR.frame_coq(f) for f in c['fb']])} {F.lst([FR.frame_coq(f) for f in c['fa']])}")
+        elif c["t"] == "sm":
+            a = c["after"]
+            off = "None" if a["offset"] is None else f"(Some {_qj(a['offset'])})"
+            terms.append(f"CSm {tol} {by} {_sm_coq(c['src'])} {_sm_coq(c['out'])} {off} {_qj(a['start'])} {_qj(a['length'])} "
+                         f"{_cells(a['meta'])} {_frames2(c['fb'])} {_frames2(c['fa'])}")
+        elif c["t"] == "set":
+            terms.append(f"CSet {tol} {by} {F.lst([_uls(x) for x in c['src']])} {F.lst([_uls(x) for x in c['out']])} "
+                         f"{_frames2(c['fb'])} {_frames2(c['fa'])}")
+        elif c["t"] == "preview":
+            b = F.q(Fr(c["by"])) if "by" in c else by
+            terms.append(f"CPreview {tol} {b} {_qj(c['before'])} {_qj(c['after'])}")
         elif c["t"] == "same":
             terms.append(f"CSame {tol} {_uls(c['a'])} {_uls(c['b'])}")
     return terms
@@ -189,10 +253,15 @@ def bucket(case, out):
 def classify(case, out, kind, sub=None):
     if sub is not None and kind == "spec":
         chk = out["checks"][sub]
-        if chk["t"] == "fields" and case["game"] == "sm":
-            bad = [n for n, (a, b) in zip(chk["names"], chk["pairs"])
-                   if abs(float(F.frac_from_json(a)) / case["by"] - float(F.frac_from_json(b))) > 1e-6]
-            if bad == ["offset"]:
+        if chk["t"] == "preview" and F.frac_from_json(chk["before"]) == -1 and F.frac_from_json(chk["after"]) != -1:
+            # osu's "no preview point" marker divided like a time (uniform scaling holds: only the strict reading fails)
+            return "osu-rate-preview-unset-marker-scaled"
+        if chk["t"] == "sm":
+            s, o, a = chk["src"], chk["out"], chk["after"]
+            rest_ok = (all(a[k] == s[k] for k in ("offset", "start", "length", "meta")) and o["meta"] == s["meta"]
+                       and all(abs(float(F.frac_from_json(s[k])) / case["by"] - float(F.frac_from_json(o[k]))) <= 1e-6
+                               for k in ("start", "length")))
+            if rest_ok and s["offset"] is not None and o["offset"] == s["offset"] and case["by"] != 1.0 and F.frac_from_json(s["offset"]) != 0:
                 return "sm-rate-offset-unscaled"
     return None
 
